@@ -87,6 +87,7 @@ BATTERY = [
 def generate(rng, tier="quick"):
     n = rng.randint(4, 16)
     kinds = ["create", "create", "validates", "create_illegal", "create_mismatched", "create_nested", "extend_version",
+             "nested_dialect",
              "validator_for", "validator_for", "validate",
              "validate", "cli", "suspend", "resume", "validate_cls"]
     enabled = [k for k in kinds if rng.random() < 0.8] or kinds
@@ -335,6 +336,37 @@ def execute(scn):
                 if suspended:
                     probe("registration_while_iterator_suspended")
                 check_registry(step, k)
+            elif k == "nested_dialect":
+                # an explicitly given class decides the WHOLE validation: a subschema (or a referenced definition) that
+                # carries a `$schema` of its own - another registered dialect - is still evaluated by the given class.
+                # The class is an unregistered extension whose `minimum` always rejects, so the expected verdict is
+                # known without asking the library: the instance reaches a `minimum` below the root.
+                base = drafts[op["base"]]
+                ext = V.extend(base, validators={"minimum": variant_kw("minimum")})
+                inner = DRAFT_IDS[["draft7", "draft4", "draft6", "draft3"][op["a"] % 4]] + ("#" if op["hash"] else "")
+                sub = {"$schema": inner, "minimum": 0}
+                if op["v"] % 2:
+                    schema = {"properties": {"a": {"$ref": "#/definitions/d"}}, "definitions": {"d": sub}}
+                else:
+                    schema = {"properties": {"a": sub}}
+                if op["v"] >= 2:
+                    schema["$schema"] = DRAFT_IDS[op["base"]]
+                probe("explicit_class_over_nested_dialect")
+                got = []
+                try:
+                    with warnings.catch_warnings():
+                        warnings.simplefilter("ignore")
+                        got.append(sorted(e.message for e in ext(copy.deepcopy(schema)).iter_errors({"a": 5})))
+                        try:
+                            jsonschema.validate({"a": 5}, copy.deepcopy(schema), cls=ext)
+                            got.append([])
+                        except X.ValidationError as x:
+                            got.append([x.message])
+                except Exception as x:
+                    got.append(["raised " + type(x).__name__])
+                if not all(len(g) == 1 and g[0].startswith("dsim variant keyword minimum") for g in got):
+                    violations.append({"oracle": "explicit-class-not-applied-below-the-root", "where": step, "op": k,
+                                       "detail": {"schema": schema, "got": got}})
             elif k == "extend_version":
                 # extend(parent, ..., version=...) registers the extension through create(version=...) under ITS OWN
                 # metaschema id - which is its parent's: from now on that id selects the extension
